@@ -17,7 +17,7 @@ namespace Driver
 
 def kvs (toks : List String) : List (String × String) :=
   toks.filterMap (fun t => match t.splitOn "=" with
-    | [k, v] => some (k, v)
+    | k :: v :: rest => some (k, "=".intercalate (v :: rest))     -- values may contain '=' (base64 keys)
     | _ => none)
 
 def kvGet (l : List (String × String)) (k d : String) : String :=
@@ -622,6 +622,14 @@ def stepLine (st : St) (raw : String) : St × List String :=
     if toks.headD "" == "ls" then
       let v := sizeVsFiles st implS
       ({ st with specViol := st.specViol + v.length }, msgs0 ++ v)
+    else if toks.headD "" == "restart-key" then
+      -- C19: with another key (or encryption switched on/off) the journal cannot be read: the server
+      -- must report that instead of starting with whatever it can make of the data
+      let st := { st with cov := bump st.cov "op:restart-key" }
+      if implS.startsWith "ready" then
+        ({ st with specViol := st.specViol + 1 },
+          msgs0 ++ [s!"SPEC-VIOL {st.line} class=wrong-key-accepted op={opS.trimAscii.toString} impl={implS}"])
+      else (st, msgs0)
     else if (toks.headD "").startsWith "scan" then
       -- C10 / C19: a raw password, raw token, payload or journalled name must not be in any file
       let st := { st with cov := bump st.cov "op:scan" }
